@@ -97,3 +97,12 @@ Print Assumptions C15_rest_list_independent.
 Theorem C15_sign_decision_sound : forall e, sgn_means (sign_of e) (evalR ln2_env_R e).
 Proof. exact sign_of_sound. Qed.
 Print Assumptions C15_sign_decision_sound.
+
+(* Newton from the left: f is convex and decreasing, so a step with the true derivative from a point
+   left of the root moves towards the root and does not pass it (convergence within the 20 steps is
+   NOT proved; the final guard makes any returned time correct regardless) *)
+Theorem C15_newton_left_monotone : forall data To target x r, physical_data data ->
+  fR data To target r = 0 -> 0 <= fR data To target x -> derR data To x < 0 ->
+  x <= x - fR data To target x / derR data To x <= r.
+Proof. exact newton_left_monotone. Qed.
+Print Assumptions C15_newton_left_monotone.
